@@ -233,17 +233,29 @@ def keyIs (n : Bytes) (kv : Term × Term) : Bool :=
   | .ok s => s == n
   | .error _ => false
 
-/-- `deserialize_i8 … deserialize_u64` -/
+/-- number of digits up to the last non-zero one (`rposition(|d| d != 0).map_or(0, |p| p + 1)`) -/
+def sigCount (d : Bytes) : Nat := (d.reverse.dropWhile (· == 0)).length
+
+/-- `integer_term_as::<T>` behind `deserialize_i8 … deserialize_u64`: an `Integer`, or a `BigInt` of at most 8
+significant little-endian digits with its sign applied (so non-minimal digits, negative zero and −2^63 are read),
+then `T::try_from(i128)` -/
 def deInt (k : IntTy) : Term → SRes Val
   | .int i => if k.inRange i then .ok (.int k i) else .error .err
   | .big neg d =>
-    if k = .u64 ∧ neg = false ∧ d.length ≤ 8 then .ok (.int .u64 (magVal d)) else .error .err
+    if sigCount d > 8 then .error .err else
+    let mag : Int := (magVal (d.take (sigCount d)) : Nat)
+    let v : Int := if neg then -mag else mag
+    if k.inRange v then .ok (.int k v) else .error .err
   | _ => .error .err
 
-/-- `deserialize_char`: an `OwnedTerm::String` of exactly one `char` -/
+/-- `deserialize_char`: an `OwnedTerm::String`, or a UTF-8 `Binary` (how a string comes back from the wire), of exactly one `char` -/
 def deChar : Term → SRes Val
   | .str s =>
     match utf8Decode s with
+    | some [c] => .ok (.char c)
+    | _ => .error .err
+  | .bin b =>
+    match utf8Decode b with
     | some [c] => .ok (.char c)
     | _ => .error .err
   | _ => .error .err
